@@ -63,6 +63,13 @@ def model_agrees(rec, proj=None, final_keys=("cv", "ch", "cc")):
                 tb = [x.split("/")[1:] for x in gen.parse_list(b["txs"])]
                 if ta != tb or any(a[k] != b[k] for k in ("rem", "complete", "filled")):
                     out.append("thread %d call %d: match result differs (%s vs %s)" % (tid, ci, r[:120], m[:120]))
+            elif r.startswith("snap:") and m.startswith("snap:"):
+                ra, rb = r[5:].split("/", 3), m[5:].split("/", 3)
+                if canon_vec(ra[3]) != canon_vec(rb[3]):
+                    out.append("thread %d call %d: snapshot listing differs" % (tid, ci))
+                elif not (proj and "cnt" not in proj) and ra[:3] != rb[:3]:
+                    # (under a projection without the counters the model performs the loads at other instants)
+                    out.append("thread %d call %d: snapshot counters %s, model %s" % (tid, ci, "/".join(ra[:3]), "/".join(rb[:3])))
             elif r.startswith("list:") and m.startswith("list:"):
                 if canon_vec(r[5:]) != canon_vec(m[5:]):
                     out.append("thread %d call %d: listing differs" % (tid, ci))
